@@ -84,6 +84,18 @@ def getDestructuringValues(value, count, pos):
     return vals
 
 
+def getSpreadValues(value, pos):
+    if value.isList():
+        return value.value
+    if value.isSet():
+        return value.getSortedItems()
+    if value.isMap():
+        return value.getSortedKeys()
+    raise CklRuntimeError(
+        ValueString("ERROR"), f"Cannot spread {value.type()}", pos
+    )
+
+
 def getFuncallString(fn, args):
     return f"{fn.name}({args.toStringAbbrev()})"
 
@@ -96,14 +108,14 @@ def invoke(fn, names_, args, environment, pos):
         if isinstance(arg, NodeSpread):
             argvalue = arg.evaluate(environment)
             if argvalue.isMap():
-                for key, value in argvalue.value.items():
-                    values.append(value)
+                for key in argvalue.getSortedKeys():
+                    values.append(argvalue.value[key])
                     if key.isString():
                         names.append(key.value)
                     else:
                         names.append(None)
             else:
-                for value in argvalue.value:
+                for value in getSpreadValues(argvalue, pos):
                     values.append(value)
                     names.append(None)
         else:
@@ -1239,7 +1251,7 @@ class NodeList:
         for item in self.items:
             if isinstance(item, NodeSpread):
                 lst = item.evaluate(environment)
-                for value in lst.value:
+                for value in getSpreadValues(lst, self.pos):
                     result.addItem(value)
             else:
                 result.addItem(item.evaluate(environment))
